@@ -1,6 +1,7 @@
 """C18 - streaming output does not depend on how the LLM text is chunked.
 
-Domain   : text (pattern-aware alphabet, incl. literal backslash + letter pairs) x {prefix, suffix, stop, piped?}
+Domain   : text (pattern-aware alphabet, incl. literal backslash + letter pairs and patterns written in another letter
+           case) x {prefix, suffix, stop, piped?}
            x ALL 2^(n-1) chunkings (short texts) or sampled chunkings (long texts), optional leading empty token.
 Oracle   : (i) metamorphic - every chunking delivers the same concatenation and the same `completion`;
            (ii) reference string function ref(text) = strip prefix if present, cut at first stop,
@@ -22,30 +23,46 @@ CASE_TIMEOUT = 60
 RULE = (
     "texts over the alphabet {a,b,space,\\n,\",:,u,s,e,r} built as [prefix?] body [suffix?] [stop tail?] or "
     "unconstrained, x configs prefix in {None,'  \"','Bot message: \"'} suffix in {None,'\"'} stop in {[],['\"\\n'],"
-    "['\\nuser ','\\nUser ']} - and, in one case of three, prefix/suffix/stop patterns that are themselves generated over {a,b,\\n} (1-4 "
+    "['\\nuser ','\\nUser '],['User:']} - and, in one case of three, prefix/suffix/stop patterns that are themselves generated over {a,b,\\n} (1-4 "
     "characters, up to 3 stop sequences in any list order) - direct or piped to an outer handler; escape dimension (one case in "
     "three of either kind, labels backslash / backslash+letter / backslash-in-pattern): bodies are built from atoms that add a lone "
     "literal backslash, the letters n and t and the two-character pairs backslash+{n,t,r,\",u,backslash} to the alphabet, and "
     "generated patterns and their texts are drawn over {backslash, one drawn escape letter, real newline or a}, so that a token "
-    "boundary falls between the backslash and the letter in some chunkings and not in others; the enumerated core runs 10 tiny "
-    "texts plus every backslash pair (bare, between letters, inside the quoted-message shape) under all 36 fixed configurations; "
+    "boundary falls between the backslash and the letter in some chunkings and not in others; letter-case dimension (labels case-variant, "
+    "case-variant-of-prefix/-suffix/-stop, case-variant+stop-as-configured): one fixed-configuration case in four puts a configured "
+    "pattern that has cased letters (stop sequence, 'Bot message: \"' prefix) into the text in ANOTHER letter case (all lower, all upper, "
+    "swapped, or a drawn subset of letters swapped) - in front of the message, after it, followed by more text, by the suffix and, one in "
+    "three, by the stop sequence as configured - with bodies over the alphabet closed under case change; two generated-pattern cases in "
+    "nine draw patterns and texts over a case-closed alphabet (aA\\n, aAb, aAbB, abAB\\n) and put each pattern into the text as "
+    "configured or in another case; patterns are matched as configured, so the reference treats a case variant as ordinary text; "
+    "the enumerated core runs 10 tiny "
+    "texts plus every backslash pair (bare, between letters, inside the quoted-message shape) plus every cased fixed pattern in "
+    "lower/upper/swapped case (stops: bare, between letters, after a quoted message; prefix: bare, in front of a message) under all 48 "
+    "fixed configurations (enumerated texts beyond 11 characters other than the bare prefix: one token, one token per character, every "
+    "single cut and every cut-out window of <= 3 characters); "
     "for texts of <= 11 characters every one of the 2^(n-1) "
     "chunkings is run, longer texts get 48 sampled chunkings; evaluations counts (text,config) cases, the extra key "
     "chunkings_run counts handler executions. Non-trivial = a pattern (prefix/suffix/stop, whole or a proper piece of "
-    "it) occurs inside the body or prefix end and suffix are < 3 characters apart; distinct by (text, config)."
+    "it) occurs inside the body or prefix end and suffix are < 3 characters apart or the text holds a pattern in another letter case; "
+    "distinct by (text, config)."
 )
 ASSUMPTIONS = [
     "tokens are non-empty except an optional leading empty token (an empty token is the handler's end-of-stream signal)",
     "every token arrives as on_llm_new_token(token, chunk=GenerationChunk(text=token)) followed by on_llm_end, as langchain does",
     "reference equality (ii) is not asserted where 'suffix first' and 'stop first' readings differ (counted as ambiguous)",
+    "prefix, suffix and stop sequences are matched exactly as configured (the statement speaks of THE configured patterns): the same "
+    "letters in another case are ordinary text, delivered unchanged and never a place to cut",
     "the LLM text is a plain character sequence: a backslash followed by a letter is two literal characters for the handler "
     "(translating escaped new lines is done later on the final utterance, not on the stream), so the reference copies them unchanged",
 ]
 
 PREFIXES = [None, '  "', 'Bot message: "']
 SUFFIXES = [None, '"']
-STOPS = [[], ['"\n'], ["\nuser ", "\nUser "]]
+STOPS = [[], ['"\n'], ["\nuser ", "\nUser "], ["User:"]]  # the last two are the lists the repo itself configures
 ALPHA = 'ab "\n:user'
+# Letter-case dimension: the alphabet closed under case change, and the fixed stop lists that contain cased letters.
+ALPHA_CASED = ALPHA + "".join(sorted({c.swapcase() for c in ALPHA if c.swapcase() != c}))
+CASED_STOPS = [s for s in STOPS if any(c.swapcase() != c for p in s for c in p)]
 
 _counters = {"chunkings_run": 0}
 
@@ -58,6 +75,7 @@ WALL = {"quick": 150, "thorough": 1500}
 
 
 GEN_ALPHA = "ab\n"
+GEN_ALPHAS_CASED = ["aA\n", "aAb", "aAbB", "abAB\n"]  # generated patterns/texts of the letter-case dimension
 
 # Escape dimension: a literal BACKSLASH followed by a character that some layer could read as an escape sequence (escaped
 # new line, Windows path C:\new, LaTeX \table, JSON \" and \uXXXX). The handler must pass these two characters on
@@ -75,10 +93,37 @@ def _body(esc, alpha, max_size):
     return st.lists(st.sampled_from(ESC_BODY_ATOMS), max_size=max_size).map(lambda xs: "".join(xs)[:max_size])
 
 
+def _has_case(p):
+    return bool(p) and any(c.swapcase() != c for c in p)
+
+
+@st.composite
+def _case_variant(draw, p):
+    """The pattern `p` (which contains cased letters) in ANOTHER letter case: all lower, all upper, every letter swapped,
+    or a drawn non-empty subset of its letters swapped. Never equal to `p` itself."""
+    mode = draw(st.integers(0, 3))
+    v = [p.lower(), p.upper(), p.swapcase(), None][mode]
+    if v is None or v == p:
+        idx = [i for i, c in enumerate(p) if c.swapcase() != c]
+        flip = set(draw(st.lists(st.sampled_from(idx), min_size=1, max_size=len(idx), unique=True)))
+        v = "".join(c.swapcase() if i in flip else c for i, c in enumerate(p))
+    return v
+
+
+def _variant_spans(text, p):
+    """Start offsets where `text` holds `p` in another letter case (equal when case is ignored, not equal as written)."""
+    if not _has_case(p):
+        return []
+    n, low = len(p), p.lower()
+    return [i for i in range(len(text) - n + 1) if text[i : i + n] != p and text[i : i + n].lower() == low]
+
+
 @st.composite
 def _case(draw):
     if draw(st.integers(0, 2)) == 0:
         return draw(_generated_patterns_case())
+    if draw(st.integers(0, 3)) == 0:
+        return draw(_case_variant_case())
     prefix = draw(st.sampled_from(PREFIXES))
     suffix = draw(st.sampled_from(SUFFIXES))
     stop = draw(st.sampled_from(STOPS))
@@ -118,6 +163,52 @@ def _case(draw):
     return {"text": text, "prefix": prefix, "suffix": suffix, "stop": stop, "pipe": pipe, "lead_empty": lead_empty, "chunkings": chunkings}
 
 
+def _sampled_chunkings(draw, text):
+    n = len(text)
+    if n <= 11:
+        return "all"
+    chunkings = draw(st.lists(st.lists(st.integers(1, n - 1), max_size=min(n - 1, 12), unique=True).map(sorted), min_size=8, max_size=48))
+    chunkings.append([])
+    chunkings.append(list(range(1, n)))
+    return chunkings
+
+
+@st.composite
+def _case_variant_case(draw):
+    """Letter-case dimension under the fixed configurations: the text holds a configured pattern (stop sequence, prefix)
+    in ANOTHER letter case - where the pattern itself would stand (after the message, in front of it) or inside the body,
+    alone or followed by the pattern as configured. Patterns are matched as configured, so the variant is ordinary text.
+    Bodies are drawn over the alphabet closed under case change."""
+    stop = draw(st.sampled_from(CASED_STOPS + [[]]))
+    prefix = draw(st.sampled_from(PREFIXES if stop else [p for p in PREFIXES if _has_case(p)]))
+    suffix = draw(st.sampled_from(SUFFIXES))
+    body = lambda size: st.text(st.sampled_from(ALPHA_CASED), max_size=size)  # noqa: E731
+    parts = []
+    variant_of = []
+    if prefix and _has_case(prefix) and (not stop or draw(st.booleans())):
+        parts.append(draw(_case_variant(prefix)))  # the prefix in another case is not the prefix: nothing is removed
+        variant_of.append("prefix")
+    elif prefix and draw(st.integers(0, 3)) > 0:
+        parts.append(prefix)
+    parts.append(draw(body(4)))
+    if suffix and draw(st.booleans()):
+        parts.append(suffix)
+    if stop and (not variant_of or draw(st.booleans())):
+        parts.append(draw(_case_variant(draw(st.sampled_from(stop)))))
+        variant_of.append("stop")
+        parts.append(draw(body(3)))
+        if draw(st.integers(0, 2)) == 0:  # the stop sequence as configured AFTER its case variant: the cut belongs there
+            parts.append(draw(st.sampled_from(stop)))
+            parts.append(draw(body(2)))
+    if suffix and draw(st.booleans()):
+        parts.append(suffix)
+    text = "".join(parts)
+    return {
+        "text": text, "prefix": prefix, "suffix": suffix, "stop": stop, "pipe": draw(st.booleans()),
+        "lead_empty": draw(st.booleans()), "chunkings": _sampled_chunkings(draw, text), "case_variant": variant_of,
+    }
+
+
 @st.composite
 def _generated_patterns_case(draw):
     """Patterns themselves are generated over a 3-letter alphabet (repeated first characters, stops that are prefixes of
@@ -125,24 +216,31 @@ def _generated_patterns_case(draw):
     One case in three uses an escape alphabet instead: {backslash, one drawn escape letter, real newline or 'a'}, so that
     patterns and texts contain backslash+letter pairs (and the real newline next to its escaped spelling)."""
     alpha = GEN_ALPHA
+    cased = False
     if draw(st.integers(0, 2)) == 0:
         letter = draw(st.sampled_from(ESC_LETTERS))
         third = draw(st.sampled_from("\na"))
         alpha = BACKSLASH + (letter if letter != BACKSLASH else "b") + third
+    elif draw(st.integers(0, 2)) == 0:
+        # letter-case dimension: an alphabet closed under case change; wherever a pattern is put into the text it may be
+        # put there in another letter case (ordinary text, since patterns are matched as configured)
+        alpha = draw(st.sampled_from(GEN_ALPHAS_CASED))
+        cased = True
     pat = lambda lo, hi: st.text(alpha, min_size=lo, max_size=hi)  # noqa: E731
+    occ = lambda p: _case_variant(p) if cased and _has_case(p) and draw(st.booleans()) else st.just(p)  # noqa: E731
     prefix = draw(st.one_of(st.none(), pat(1, 3)))
-    suffix = draw(st.one_of(st.none(), st.none(), pat(1, 2)))
+    suffix = draw(st.one_of(st.none(), pat(1, 2)) if cased else st.one_of(st.none(), st.none(), pat(1, 2)))
     stop = draw(st.lists(pat(1, 4), max_size=3, unique=True))
     parts = []
     if prefix and draw(st.integers(0, 3)) > 0:
-        parts.append(prefix)
+        parts.append(draw(occ(prefix)))
     parts.append(draw(st.text(alpha, max_size=6)))
     for sseq in draw(st.permutations(stop)):
         if draw(st.booleans()):
-            parts.append(sseq)
+            parts.append(draw(occ(sseq)))
             parts.append(draw(st.text(alpha, max_size=2)))
     if suffix and draw(st.booleans()):
-        parts.append(suffix)
+        parts.append(draw(occ(suffix)))
     text = "".join(parts)[:11]
     return {"text": text, "prefix": prefix, "suffix": suffix, "stop": stop, "pipe": draw(st.booleans()), "lead_empty": draw(st.booleans()), "chunkings": "all", "gen_patterns": True}
 
@@ -157,12 +255,27 @@ def enumerate_cases(tier):
     # escape family: every backslash+letter pair bare, between letters, and inside the quoted message shape
     for atom in ESC_ATOMS:
         texts += [atom, "a" + atom + "b", '  "' + atom + '"\nb']
-    for t in texts:
+    # letter-case family: every fixed pattern with cased letters in lower / upper / swapped case - bare, between letters and
+    # after a quoted message (stops), bare and in front of a message (prefix)
+    long_texts = []
+    for pattern in sorted({s for stp in CASED_STOPS for s in stp}):
+        for v in sorted({pattern.lower(), pattern.upper(), pattern.swapcase()} - {pattern}):
+            texts += [v, "a" + v + "b"]
+            long_texts += ['  "a"' + v + 'b"']
+    for pattern in [p for p in PREFIXES if _has_case(p)]:
+        for v in sorted({pattern.lower(), pattern.upper(), pattern.swapcase()} - {pattern}):
+            long_texts += [v, v + 'a"']
+    for t in texts + long_texts:
+        n = len(t)
+        # texts beyond the exhaustive bound: one token, one token per character, every single cut, every cut-out window of <= 3
+        chunkings = "all" if n <= 11 or t in texts else (
+            [[], list(range(1, n))] + [[i] for i in range(1, n)] + [[i, j] for i in range(1, n) for j in range(i + 1, min(n, i + 4))]
+        )
         for p in PREFIXES:
             for s in SUFFIXES:
                 for stp in STOPS:
                     for pipe in (False, True):
-                        yield {"text": t, "prefix": p, "suffix": s, "stop": stp, "pipe": pipe, "lead_empty": False, "chunkings": "all"}
+                        yield {"text": t, "prefix": p, "suffix": s, "stop": stp, "pipe": pipe, "lead_empty": False, "chunkings": chunkings}
 
 
 def _cuts(t, stop):
@@ -249,6 +362,8 @@ def _nontrivial(text, prefix, suffix, stop):
                 return True
     if prefix and suffix and text.startswith(prefix) and len(body) < 3 + len(suffix):
         return True
+    if any(_variant_spans(text, p) for p in pats):
+        return True
     return False
 
 
@@ -299,6 +414,13 @@ def prop(case):
             labels.append("backslash+letter")
         if any(BACKSLASH in p for p in [prefix, suffix] + list(stop) if p):
             labels.append("backslash-in-pattern")
+    variants = [name for name, pats in (("prefix", [prefix]), ("suffix", [suffix]), ("stop", stop)) if any(_variant_spans(text, p) for p in pats if p)]
+    for name in variants:
+        labels.append("case-variant-of-" + name)
+    if variants:
+        labels.append("case-variant")
+        if "stop" in variants and any(s and s in text for s in stop):
+            labels.append("case-variant+stop-as-configured")
     if case.get("gen_patterns"):
         labels.append("generated-patterns")
         if len(stop) >= 2:
